@@ -1,0 +1,16 @@
+//go:build verif
+// +build verif
+
+package gf2p16
+
+// Verification hooks (build tag verif): exports of the little-endian
+// platform kernels (the byte-slice entry points of every little-endian
+// architecture other than amd64), so that they can be driven on amd64.
+
+// VerifMulByteSliceLEPlatformLE exports mulByteSliceLEPlatformLE.
+func VerifMulByteSliceLEPlatformLE(c T, in, out []byte) { mulByteSliceLEPlatformLE(c, in, out) }
+
+// VerifMulAndAddByteSliceLEPlatformLE exports mulAndAddByteSliceLEPlatformLE.
+func VerifMulAndAddByteSliceLEPlatformLE(c T, in, out []byte) {
+	mulAndAddByteSliceLEPlatformLE(c, in, out)
+}
